@@ -27,6 +27,10 @@ type c17Case struct {
 	// Then: after the timed call has returned, the caller tries again on the same Client ("send" or
 	// "reset"); that call is bounded as well (the server is still silent, or the connection is gone).
 	Then string `json:"then,omitempty"`
+	// Warmup > 0 (call "send", plain connection): the stalled message is preceded by that many messages
+	// that go through quickly in the same Send call; the bound for these cases is tight (3 s), because a
+	// deadline that creeps forward with every successful operation stays far below the general bound.
+	Warmup int `json:"warmup,omitempty"`
 }
 
 type c17Outcome struct {
@@ -80,6 +84,9 @@ func c17Exec(c *c17Case) c17Outcome {
 		return m
 	}
 	bound := c17Bound(c.Cfg.TimeoutMS)
+	if c.Warmup > 0 {
+		bound = 3 * time.Second
+	}
 	var out c17Outcome
 	// phase 1 (not timed): get to the state in which the timed call is made
 	if c.Call == "send" || c.Call == "reset" {
@@ -103,6 +110,13 @@ func c17Exec(c *c17Case) c17Outcome {
 		case "dialandsend":
 			return cl.DialAndSendWithContext(ctx, mk())
 		case "send":
+			if c.Warmup > 0 {
+				var batch []*mail.Msg
+				for i := 0; i <= c.Warmup; i++ {
+					batch = append(batch, simpleMsg(i+1, 1, "quoted-printable"))
+				}
+				return cl.Send(batch...)
+			}
 			return cl.Send(mk())
 		default:
 			return cl.Reset()
@@ -155,7 +169,7 @@ func c17Run(c c17Case) []*core.Violation {
 		rec.Class("stall-point-not-reached")
 		return nil
 	}
-	fp := core.Join(c.Call, c.StallStep, c.Cfg.TLS, c.Cfg.Auth, c.Cfg.TimeoutMS, c.Cfg.NoNoop, c.Cfg.Fallback, c.CtxMS, c.Then)
+	fp := core.Join(c.Call, c.StallStep, c.Cfg.TLS, c.Cfg.Auth, c.Cfg.TimeoutMS, c.Cfg.NoNoop, c.Cfg.Fallback, c.CtxMS, c.Then, c.Warmup)
 	if out.thenDone {
 		rec.AddExtra("retries_after_a_timed_out_call", 1)
 	}
@@ -163,6 +177,9 @@ func c17Run(c c17Case) []*core.Violation {
 	rec.Class("call:" + c.Call)
 	rec.Sample(c.Call+"/"+c.StallStep, map[string]interface{}{"call": c.Call, "stall_step": c.StallStep, "tls": c.Cfg.TLS, "auth": c.Cfg.Auth, "timeout_ms": c.Cfg.TimeoutMS, "returned_after_ms": out.elapsed.Milliseconds(), "error": fmt.Sprint(out.err)})
 	bound := c17Bound(c.Cfg.TimeoutMS)
+	if c.Warmup > 0 {
+		bound = 3 * time.Second
+	}
 	miss := func(o c17Outcome) string {
 		if o.thenBlocked {
 			return fmt.Sprintf("%s returned its time-out error, but the following %s on the same Client did not return within %v (configured timeout %d ms; server silent since %s)", c.Call, c.Then, bound, c.Cfg.TimeoutMS, c.StallStep)
@@ -242,6 +259,16 @@ func c17Configs() []c17Case {
 		out = append(out, c17Case{Cfg: smtpCfg{TLS: "none"}, Caps: []string{"8BITMIME"}, StallStep: st, Call: "reset", Then: "send"})
 		out = append(out, c17Case{Cfg: smtpCfg{TLS: "mandatory"}, Caps: []string{"STARTTLS", "8BITMIME"}, StallStep: st, Call: "reset", Then: "reset"})
 	}
+	// many quick successful operations before the stall: the time-out does not accumulate
+	for _, w := range []int{30, 60} {
+		for _, st := range []string{"mail", "rcpt", "data", "eod"} {
+			step := fmt.Sprintf("%s#%d", st, w+1)
+			if st == "rcpt" {
+				step = fmt.Sprintf("rcpt#%d.1", w+1)
+			}
+			out = append(out, c17Case{Cfg: smtpCfg{TLS: "none"}, Caps: []string{"8BITMIME"}, StallStep: step, Call: "send", Warmup: w})
+		}
+	}
 	// DialAndSend again after a DialAndSend that timed out (the server stays silent at the same step)
 	for _, st := range []string{"greet", "ehlo#1", "noop#1", "mail#1", "data#1", "eod#1", "quit"} {
 		out = append(out, c17Case{Cfg: smtpCfg{TLS: "none"}, Caps: []string{"8BITMIME"}, StallStep: st, Call: "dialandsend", Then: "dialandsend"})
@@ -284,7 +311,7 @@ func c17Describe() {
 	rec := core.Rec("C17")
 	rec.Rule = "enumerated stall points: the reference server goes silent (connection held open) at {greeting, EHLO reply, STARTTLS reply, during the TLS handshake, second EHLO, the AUTH command, the first and second challenge of the exchange, NOOP, MAIL, first and second RCPT, DATA, inside the message content (server stops reading; bounded in-memory buffer so the writer blocks), end-of-data reply, the NOOP/RSET after delivery, QUIT} " +
 		"x TLS policy {none, mandatory} x auth {none, PLAIN, LOGIN, CRAM-MD5, SCRAM-SHA-256} x call {DialWithContext, DialAndSend, Send, Reset}, plus the same stall points on a connection obtained through the fallback port (primary dial refused), with WithoutNoop, with a caller context whose own deadline is 60 s away, and followed by a RETRY on the same Client (Send or Reset after the call that timed out at NOOP/MAIL/RCPT/DATA/end-of-data/RSET; the retry is bounded as well), x configured timeout (100 ms in quick; 100/200/400 ms in thorough). " +
-		"Oracle: the call returns a non-nil error within max(20 x timeout, 15 s); a miss is re-run twice in isolation and only reported if it repeats. Non-trivial: every case whose stall point is actually reached; distinct by (call, stall point, policy, auth, timeout)."
+		"Also: a stall at the 31st / 61st message of one Send call on a plain connection, after 30 / 60 messages went through quickly, with a tight bound of 3 s (a deadline that grows with every successful operation). Oracle: the call returns a non-nil error within max(20 x timeout, 15 s); a miss is re-run twice in isolation and only reported if it repeats. Non-trivial: every case whose stall point is actually reached; distinct by (call, stall point, policy, auth, timeout)."
 	rec.Assumptions = []string{"real clocks: the bound is >= 20x the configured timeout and at least 15 s (closing a TLS connection to a peer that no longer reads may itself take 5 s in crypto/tls)", "in-memory transport through WithDialContextFunc (deadline support implemented by the harness connection)", "boundedness is shown only for the enumerated stall points"}
 }
 
